@@ -4,15 +4,15 @@ from vlib import common as C
 from vlib import conc
 
 RULES = ['fXchg.empty', 'fXchg.list', 'fDec1', 'fDec', 'fInvoke', 'fSet', 'fIncRef', 'fSubmit', 'fRefLoad', 'fForward.copy',
-         'fForward.move', 'fRetire.copy', 'oLoad.list', 'oLoad.result', 'oCasOk', 'oCasFail.list', 'oCasFail.result',
-         'oCasSpur.list', 'oInvoke', 'oIncRef', 'oSubmit', 'oForward', 'oRefLoad', 'oRetire.copy', 'oRetire.move', 'oWaited',
+         'fForward.move', 'fEnter', 'oLoad.list', 'oLoad.result', 'oCasOk', 'oCasFail.list', 'oCasFail.result',
+         'oCasSpur.list', 'oInvoke', 'oIncRef', 'oSubmit', 'oForward', 'oEnter', 'rRefLoad', 'rRetire.copy', 'rRetire.move', 'oWaited',
          'oGetc', 'oGetRef', 'oGot.copy', 'oGot.move', 'oRdLoad', 'oReady.false', 'oReady.true',
          'oTouch.some', 'oCopy', 'oDrop', 'jInvoke', 'jDec', 'chk.consume']
-# Step constructors / outcomes the theorems show unreachable (`target_never_sees_ref_one`, `fulfiller_retire_never_moves`;
+# Step constructors / outcomes the theorems show unreachable (`target_never_sees_ref_one`;
 # a spurious CAS failure cannot return kResult because the word then differs from the expected value;
 # `ready_sound` / `touch_never_reads_unconstructed`: Ready() == true with unconstructed storage and the read of it — these two
 # were reachable, and exhibited on the real library, before /repo c9c07bc fixed D3)
-UNREACHABLE = ['fTargetDec', 'fForwardPost', 'fRetire.move', 'oCasSpur.result', 'oReady.true.unset', 'oTouch.none']
+UNREACHABLE = ['fTargetDec', 'fForwardPost', 'oCasSpur.result', 'oReady.true.unset', 'oTouch.none']
 
 
 def run(res, tier):
@@ -27,7 +27,8 @@ def run(res, tier):
         'implementation behaviours); the reference counter is read sequentially consistently (its memory orders are C04\'s matter, D9)',
         'MutexEvent::Set of a blocked Wait/Get is one step (the mutex / condition variable protocol is C01/C11\'s); '
         'co_await is covered through its two halves (await_ready = the Ready-then-read fast path, await_suspend = attach inline), '
-        'When* through a callback that does what CombinatorCallback does with a shared input (Release the future, SetCallback, Retire)',
+        'When* through a callback that does what CombinatorCallback does with a shared input (Release the future, SetCallback; entered by '
+        'the walk or inline; Retire() at once inside the entry — Managed strategies — or later on another thread — Owned strategies)',
         'Ready() is BaseCore::Ready() (word == kResult, /repo c9c07bc); the monitor that exhibited D3 on the pinned tree '
         '(Ready() == true => Touch() reads the set value) is still armed',
     ]
